@@ -65,6 +65,26 @@ class _InlineMixin:
         finally:
             self._depth -= 1
 
+    def convert_from(self, src, v):
+        """`v.into()` where exactly one `impl From<src> for Dst` exists in the crate: its `from` evaluated on v"""
+        meth, free, consts = _index(self.ctx)
+        cands = []
+        for (st_, nm_), fs_ in meth.items():
+            if nm_ != "from":
+                continue
+            for x in fs_:
+                tr = (x.get("trait") or "").replace(" ", "")
+                if tr.split("::")[-1].startswith("From<") and lastseg(strip_generics(tr[tr.index("<") + 1:tr.rindex(">")])) == src:
+                    cands.append(x)
+        if len(cands) != 1:
+            return NotImplemented
+        saved = getattr(self, "self_ty", None)
+        self.self_ty = cands[0]["self_ty"]
+        try:
+            return self.inline(cands[0], [v])
+        finally:
+            self.self_ty = saved
+
     def path(self, p):
         r = super().path(p)
         if r is not NotImplemented:
@@ -134,15 +154,9 @@ class _InlineMixin:
             return r
         if m == "into" and not args and isinstance(recv, tuple) and recv and recv[0] in ("enum", "struct"):
             # a conversion defined in the crate: `impl From<Src> for Dst` (used when exactly one such impl exists for the source type)
-            src = recv[1].split("::")[0] if recv[0] == "enum" else recv[1]
-            cands = []
-            for mod_ in self.ctx.rspirv.modules():
-                for im in self.ctx.rspirv.items(mod_, "impl"):
-                    tr = (im.get("trait") or "").replace(" ", "")
-                    if tr.split("::")[-1].startswith("From<") and lastseg(strip_generics(tr[tr.index("<") + 1:tr.rindex(">")])) == src:
-                        cands += [x for x in im["items"] if x.get("kind") == "fn" and x["name"] == "from"]
-            if len(cands) == 1:
-                return self.inline(cands[0], [recv])
+            r = self.convert_from(recv[1].split("::")[0] if recv[0] == "enum" else recv[1], recv)
+            if r is not NotImplemented:
+                return r
         if isinstance(recv, tuple) and recv and recv[0] == "enum" and "::" in recv[1] and m not in self.NO_INLINE:
             meth, free, consts = _index(self.ctx)
             c = meth.get((recv[1].split("::")[0], m), [])
